@@ -127,7 +127,16 @@ func VerifC11_G2sender(v *VerifV) {
 	tx := verifSymTx(v)
 	c := v.I64("chainid")
 	v.Assume(c >= 1 && c < 1<<15)
-	signer := NewChainIDSigner(big.NewInt(c))
+	var signer Signer = NewChainIDSigner(big.NewInt(c))
+	sk := v.Choice("signer", 3)
+	switch sk {
+	case 1:
+		signer = HomesteadSigner{}
+		v.Cover("homestead-signer")
+	case 2:
+		signer = FrontierSigner{}
+		v.Cover("frontier-signer")
+	}
 	// arbitrary signature values; r and s either full length or one byte
 	R, S := v.Big("r", 256), v.Big("s", 256)
 	full := new(big.Int).Lsh(big.NewInt(1), 248)
@@ -141,8 +150,7 @@ func VerifC11_G2sender(v *VerifV) {
 	} else {
 		v.Assume(S.Cmp(full) >= 0)
 	}
-	V := big.NewInt(v.I64("v"))
-	v.Assume(V.Sign() >= 0 && V.Cmp(big.NewInt(1<<17)) < 0)
+	V := v.Big("v", 72) // any non-negative V, also beyond 64 bits
 	tx.data.V, tx.data.R, tx.data.S = V, R, S
 
 	verifRecoverSig = nil
@@ -152,9 +160,17 @@ func VerifC11_G2sender(v *VerifV) {
 		return
 	}
 	v.Cover("accepted")
+	v.Assert(V.IsInt64(), "C11.tx.oversized-v-accepted")
 	vv := V.Int64()
 	protected := vv != 27 && vv != 28
 	recid := int64(0)
+	if sk != 0 {
+		// signers without replay protection accept V in {27, 28} only
+		v.Assert(!protected, "C11.tx.malformed-v-accepted")
+		if protected {
+			return
+		}
+	}
 	if protected {
 		v.Cover("protected")
 		// V = 35 + 2*chain + recid
@@ -165,7 +181,11 @@ func VerifC11_G2sender(v *VerifV) {
 		recid = vv - 27
 	}
 	v.Assert(R.Sign() > 0 && R.Cmp(verifN) < 0, "C11.tx.r-out-of-range")
-	v.Assert(S.Sign() > 0 && S.Cmp(verifHalfN) <= 0, "C11.tx.high-s-accepted")
+	if sk == 2 {
+		v.Assert(S.Sign() > 0 && S.Cmp(verifN) < 0, "C11.tx.s-out-of-range") // Frontier rules: no low-s requirement
+	} else {
+		v.Assert(S.Sign() > 0 && S.Cmp(verifHalfN) <= 0, "C11.tx.high-s-accepted")
+	}
 	v.Assert(verifRecoverSig != nil && len(verifRecoverSig) == 65, "C11.tx.no-recovery")
 	if len(verifRecoverSig) == 65 {
 		v.Assert(int64(verifRecoverSig[64]) == recid, "C11.tx.recovery-id")
@@ -173,9 +193,12 @@ func VerifC11_G2sender(v *VerifV) {
 		v.Assert(new(big.Int).SetBytes(verifRecoverSig[32:64]).Cmp(S) == 0, "C11.tx.recovered-with-other-s")
 		// the digest recovered against is the sig-hash of this very transaction under this signer
 		var want cmn.Hash
-		if protected {
+		switch {
+		case protected:
 			want = signer.Hash(tx)
-		} else {
+		case sk == 2:
+			want = FrontierSigner{}.Hash(tx)
+		default:
 			want = HomesteadSigner{}.Hash(tx)
 		}
 		verifSameBytes(v, verifRecoverHash, want[:], "C11.tx.recovered-against-other-digest")
